@@ -39,8 +39,20 @@ def check(idx: Index, rep: Report, tier: str) -> str:
             src = resolved_text(cfg, a, cfg.node_of(c))
             if front:
                 r.fail(inst + ":front", Finding("C20.R1", f.fq, f"scratch-preferred-over-designated:{unparse(a)}", f"`{unparse(c)}` puts `{src}` - a register that is only read by the parallel move - in FRONT of the designated free registers: it is chosen as scratch even when the operation names a free register, and the value living in it is clobbered", f"{PM}:{c.lineno}"))
-            nfa = norm_facts(text_facts(f.node, c))
-            if not any(re.fullmatch(rf"{re.escape(unparse(a))} in \w+", t_) and p_ is False for t_, p_ in nfa):
+            nfa = set(norm_facts(text_facts(f.node, c)))
+            # `while cond: ... else: <here>`: the else branch runs when the condition became false (no break)
+            from ..astutil import parent_map as _pm20
+
+            pm20 = _pm20(f.node)
+            x_ = c
+            while id(x_) in pm20:
+                par_ = pm20[id(x_)]
+                if isinstance(par_, ast.While) and any(x_ is o_ or any(x_ is y_ for y_ in ast.walk(o_)) for o_ in par_.orelse):
+                    nfa |= set(norm_facts([(par_.test, False)]))
+                x_ = par_
+            an_ = re.escape(unparse(a))
+            no_input = any((re.fullmatch(rf"{an_} in \w+", t_) and p_ is False) or (re.fullmatch(rf"\(?(?:\w+ := )?\w+\.get\({an_}\)\)? is None", t_) and p_ is True) for t_, p_ in nfa)
+            if not no_input:
                 r.fail(inst + ":has-input", Finding("C20.R1", f.fq, f"scratch-with-pending-input:{unparse(a)}", f"`{unparse(c)}` adds `{src}` to the scratch pool without testing that no move writes it (`{unparse(a)} not in <moves by destination>`): when the chain walk stops early (fan-out `break`) the register is a destination that has just received its value, and a later cycle overwrites it", f"{PM}:{c.lineno}"))
             r.fail(inst, Finding("C20.R1", f.fq, "scratch-not-designated:chain-top", f"`{unparse(c)}` adds `{src}` - a register reached at the top of a move chain, i.e. one that is only read by the parallel move - to the scratch pool; it is later overwritten to break a cycle although it is not a destination nor a designated free register (the value living in it is clobbered)", f"{PM}:{c.lineno}"))
 
